@@ -63,7 +63,7 @@ class Sum(SameArrayShapeMixin, Command):
         result = arrays[0].copy()
 
         for arr in arrays[1:]:
-            result += arr
+            result = result + arr
 
         return result
 
